@@ -484,6 +484,19 @@ def kernel_dispatch(rep, F):
     rep.control("R3.5", ctl)
 
 
+def kernel_rules(rep, F, rule):
+    """the orientation kernel every exact predicate of the library stands on, registered under a depending property's own rule id: the binding
+    of scalar types to kernels (R3.1), RobustKernel::orient2d = sign of robust::orient2d without a tolerance or pre-filter, SimpleKernel by the
+    exact integer sign table, also at magnitudes where f64 rounds (R3.2 / R3.7)"""
+    from ..report import Alias
+    rep.rule(rule, "the orientation kernel (C03 R3.1 / R3.2 / R3.7): floats -> RobustKernel = sign(robust::orient2d) with no tolerance or pre-filter, arguments passed unmodified; "
+                   "integers -> SimpleKernel = the exact sign of the determinant in T, also where f64 would round")
+    al = Alias(rep, rule)
+    kernel_binding(al, F)
+    kernel_bodies(al, F, rule=rule)
+    integer_kernel(al, F, rule=rule)
+
+
 def kernel_sqdist(rep, F, rule="R3.8"):
     """Kernel::square_euclidean_distance (the default body and every override), the tie-break of the Graham scan's angular sort: on witness
     pairs with mixed signs it is (p.x - q.x)^2 + (p.y - q.y)^2 (numeric evaluation of the extracted term)."""
